@@ -48,7 +48,13 @@ type Candidate struct {
 	Eval     func(fr *Frame, st *State, phi map[*ssa.Phi]Value, hyp bool) (Term, error)
 }
 
+type axiomRange struct {
+	from, to int
+	syms     []string
+}
+
 type Unit struct {
+	axioms []axiomRange
 	eng     *Engine
 	c       *Ctx
 	m       *Mem
